@@ -565,7 +565,9 @@ func (ro *RedisOutput) sendRdb(pctx context.Context, reader ChannelReader) error
 					continue
 				}
 
-				if len(e.Key) > 0 {
+				// every entry except a function library belongs to a key, and "" is a
+				// valid key: the bins of one key must reach the same worker, in order
+				if len(e.Key) > 0 || (e.ObjectParser != nil && e.ObjectParser.Type() != rdb.RdbObjectFunction) {
 					idx = util.FnvHash(e.Key) % pipeLen
 				} else {
 					idx = (idx + 1) % pipeLen
